@@ -981,6 +981,8 @@ def run(ctx):
         check_maybe_full_sources(ctx, F)
         check_into_reversed(ctx, F)
         check_sticky_and_delegation(ctx, F)
+        import props.C20 as c20
+        c20.check_size_hint_arithmetic(ctx, F, file_suffix='backends.rs')      # a sink that sizes an allocation by a loose size_hint panics where the write should succeed
     ctx.assume('SafeBuf contract: as_ref()/as_mut() of a SafeBuf never shrink (unsafe trait, implementors are std types only; checked under C20)')
     ctx.assume('Rust aliasing: a callee can only mutate what it receives by &mut; `&mut [T]` cannot change a slice length')
     ctx.assume('the Cursor invariant is only relied upon for call sequences over the backend traits (C17 quantifier); buffers manipulated through Cursor::buf_mut are in the quantifier of C20 and checked there')
